@@ -104,6 +104,8 @@ def load_cfg(rng: random.Random, tier: str, prop: str) -> gen.GenCfg:
         bwd_thread=rng.random() < 0.3,
         adv=rng.choice([(0, 0, 1, 1, 2, 3), (0, 1, 2, 5), (1, 2, 3)]),
         extras=rng.random() < 0.7,
+        corr_base=rng.choice([0, 0, 100, 32700, 70000]),
+        max_children=rng.choice([3, 3, 4]), max_depth=rng.choice([3, 3, 4]), ops_per_step=rng.choice([(1, 3), (2, 5)]),
     )
 
 
